@@ -80,6 +80,8 @@ class JSONSerialization(Serialization):
     @classmethod
     def schema(cls, pobj, safe=False, subset=None):
         schema = {}
+        if subset is not None:
+            subset = list(subset)    # (may be an iterable that can be consumed once)
         for name, p in pobj.param.objects('existing').items():
             if subset is not None and name not in subset:
                 continue
@@ -93,6 +95,8 @@ class JSONSerialization(Serialization):
     @classmethod
     def serialize_parameters(cls, pobj, subset=None):
         components = {}
+        if subset is not None:
+            subset = list(subset)    # (may be an iterable that can be consumed once)
         for name, p in pobj.param.objects('existing').items():
             if subset is not None and name not in subset:
                 continue
@@ -104,6 +108,8 @@ class JSONSerialization(Serialization):
     def deserialize_parameters(cls, pobj, serialization, subset=None):
         deserialized = cls.loads(serialization)
         components = {}
+        if subset is not None:
+            subset = list(subset)    # (may be an iterable that can be consumed once)
         for name, value in deserialized.items():
             if subset is not None and name not in subset:
                 continue
